@@ -147,6 +147,11 @@ int main(int argc, char** argv)
 		if(!quick || n <= 128 || n % 5 == 0)
 		{
 			double w = g.logu(1e-3, 1e3), c = g.coin(0.3) ? 0.0 : (g.coin() ? 1 : -1) * w * g.logu(1e-2, 1e6);
+			if(n % 7 == 3)
+			{	// intervals of any scale (lengths 1e-200 .. 1e200): a rule is an affine image of the rule on [-1,1]
+				w = std::pow(10.0, g.uni(-200, 200));
+				c = g.coin(0.5) ? 0.0 : (g.coin() ? 1 : -1) * w * g.logu(1e-2, 1e3);
+			}
 			double a = c - 0.5 * w, b = c + 0.5 * w;
 			if(g.coin(0.4))
 				std::swap(a, b);
